@@ -7,7 +7,7 @@
    NOT proved: the deadline clause end-to-end through the loop model (that the timer created by
    queue_send_new fires at its deadline is the loop model's iteration rule); checked on every run. *)
 From PS Require Import Lib.Base Generated.Consts Model.SdTypes Model.Config Model.Session Model.StackTypes Model.Stack
-  Model.StackIO Proofs.QueueProofs Proofs.WorldInv Proofs.WorldTime.
+  Model.StackIO Spec.AnnSpec Proofs.QueueProofs Proofs.WorldInv Proofs.WorldTime.
 
 Theorem C15_conservation : forall ops s d, QInv s ->
   sent_for d (snd (q_run s ops)) ++ pending_for (fst (q_run s ops)) d = pending_for s d ++ queued_for d ops.
@@ -55,6 +55,12 @@ Theorem C15_timeouts_run_exactly_at_their_deadline : forall arrivals rv w, Tinv 
                 /\ forall t, In t due' -> In t (timers w) /\ fst (fst t) = now w)
   /\ Tinv (iteration arrivals rv w) /\ now (iteration arrivals rv w) = now w.
 Proof. exact iteration_on_time. Qed.
+
+(* non-vacuity of the checker's domain restriction: an ordinary offer entry is encodable, one with a 17-bit instance id is not *)
+Example C15_unencodable_examples :
+  unencodable (mkEntry ET_OfferService 4369 1 1 3 7 [] [] None) = false
+  /\ unencodable (mkEntry ET_OfferService 4369 74565 1 3 0 [] [] None) = true.
+Proof. vm_compute. split; reflexivity. Qed.
 
 Print Assumptions C15_conservation.
 Print Assumptions C15_timeouts_run_exactly_at_their_deadline.
